@@ -175,6 +175,7 @@ package domain
 //@ spec func SpecIterValid(i *Iterator) bool = i.valid
 //@ spec func SpecIterLen(i *Iterator) int = len(i.idx.mu.pointers)
 //@ spec func SpecIterIdx(i *Iterator) *index = i.idx
+//@ spec func SpecIterClosed(i *Iterator) bool = i.closed
 //@ spec func SpecIterBounds(i *Iterator) telem.TimeRange = i.Bounds
 //@ spec func SpecIterDomainAt(i *Iterator, k int) telem.TimeRange = i.idx.mu.pointers[k].TimeRange
 //@ spec func SpecIterWF(i *Iterator) bool = i.idx != nil && WF(i.idx.mu.pointers) && validTR(i.Bounds)
@@ -212,7 +213,38 @@ package domain
 //@   requires SpecIterWF(i) && stamp >= 0 && (i.closed ==> !i.valid)
 //@   ensures  SpecIterOK(i) && ok == i.valid
 //@   ensures  ok ==> stamp < i.currPtr.End && (forall k int :: 0 <= k && k < i.position ==> i.idx.mu.pointers[k].End <= stamp)
+//@   # it fails only if the first domain ending after stamp (if any) lies outside the bounds
+//@   ensures  !ok && !i.closed ==> (forall k int :: 0 <= k && k < len(i.idx.mu.pointers) && stamp < i.idx.mu.pointers[k].End && (forall m int :: 0 <= m && m < k ==> i.idx.mu.pointers[m].End <= stamp) ==> !telem.SpecOvl(i.idx.mu.pointers[k].TimeRange, i.Bounds))
 //@   modifies &i.valid, &i.currPtr, &i.position
+
+//@ # OpenIterator: the index it iterates satisfies the representation invariant WF (proved for
+//@ # insert/update/delete above); resource counting and the reader factory are not modelled.
+//@ # views of the DB's domain index for contracts in other packages
+//@ spec func SpecDBIdx(db *DB) *index = db.idx
+//@ spec func SpecDBLen(db *DB) int = len(db.idx.mu.pointers)
+//@ spec func SpecDBDomainAt(db *DB, k int) telem.TimeRange = db.idx.mu.pointers[k].TimeRange
+//@ spec func SpecDBSizeAt(db *DB, k int) uint32 = db.idx.mu.pointers[k].size
+//@ # samples of d bytes each stored in domains a .. b-1
+//@ spec func specSumCounts(ptrs []pointer, a int, b int, d int64) int64 = __ite(a >= b, 0, specSumCounts(ptrs, a, b-1, d) + int64(ptrs[b-1].size) / d)
+//@ spec func SpecDBSum(db *DB, a int, b int, d int64) int64 = specSumCounts(db.idx.mu.pointers, a, b, d)
+//@ trusted func (db *DB) OpenIterator(cfg IteratorConfig) (i *Iterator)
+//@   ensures i != nil && __fresh(i) && i.idx != nil && i.idx == db.idx && WF(i.idx.mu.pointers) && i.Bounds == cfg.Bounds && !i.valid && !i.closed
+//@   modifies nothing
+//@ func (i *Iterator) SeekFirst(ctx context.Context) (ok bool)
+//@   requires SpecIterWF(i) && i.Bounds.Start >= 0 && (i.closed ==> !i.valid)
+//@   ensures  SpecIterOK(i) && ok == i.valid
+//@   ensures  ok ==> i.Bounds.Start < i.currPtr.End && (forall k int :: 0 <= k && k < i.position ==> i.idx.mu.pointers[k].End <= i.Bounds.Start)
+//@   ensures  !ok && !i.closed ==> (forall k int :: 0 <= k && k < len(i.idx.mu.pointers) && i.Bounds.Start < i.idx.mu.pointers[k].End && (forall m int :: 0 <= m && m < k ==> i.idx.mu.pointers[m].End <= i.Bounds.Start) ==> !telem.SpecOvl(i.idx.mu.pointers[k].TimeRange, i.Bounds))
+//@   modifies &i.valid, &i.currPtr, &i.position
+//@ pure func (i *Iterator) Position() uint32
+//@ inline func (i *Iterator) Size() telem.Size
+//@ trusted func (i *Iterator) OpenReader(ctx context.Context) (r *Reader, err error)
+//@   ensures err == nil ==> r != nil && r.ptr == i.currPtr
+//@   modifies nothing
+//@ trusted func (i *Iterator) Close() (err error)
+//@   modifies &i.valid, &i.closed
+//@ trusted func (r *Reader) Close() (err error)
+//@   modifies nothing
 
 //@ # ---------------------------------------------------------------- lock discipline (C09)
 //@ guarded_by index.mu.pointers mu
